@@ -83,9 +83,6 @@ Proof.
 Qed.
 
 (* ---- domain complementarity is kept by every step (C04) ---- *)
-Definition op_guard (o : op) : Prop :=
-  match o with ODomain _ _ _ (Some z) _ _ => z <> 0%Z | _ => True end.
-
 Lemma kind_is_class_kind ct c k : kind_is ct c k = true -> class_kind ct c = Some k.
 Proof.
   unfold kind_is. destruct (class_kind ct c) as [k'|]; [|discriminate].
@@ -93,12 +90,11 @@ Proof.
 Qed.
 
 Theorem dok_step ct st o :
-  consts_nonzero ct -> op_guard o -> Inv ct st -> Collected st -> DOK ct st -> DOK ct (fst (step ct st o)).
+  Inv ct st -> Collected st -> DOK ct st -> DOK ct (fst (step ct st o)).
 Proof.
-  intros HC G I C D. pose proof (proj2 I) as H. destruct o; cbn [step].
+  intros I C D. pose proof (proj2 I) as H. destruct o; cbn [step].
   - destruct (kind_is ct cls KindD) eqn:EK; [|exact D]. apply kind_is_class_kind in EK.
-    apply dok_finish. apply dok_dom_call; auto. apply len_guard; [exact HC|].
-    destruct len as [z|]; [cbn in G; congruence | discriminate].
+    apply dok_finish. apply dok_dom_call; auto.
   - destruct (kind_is ct cls KindC) eqn:EK; [|exact D]. apply kind_is_class_kind in EK.
     destruct (resolve_elems st seq); [|exact D]. apply dok_finish. apply dok_cplx_call; auto.
   - destruct (kind_is ct cls KindS) eqn:EK; [|exact D]. apply kind_is_class_kind in EK.
@@ -119,8 +115,6 @@ Proof.
     destruct D as [Cm [Z K]]. apply dok_dom_call; auto.
     + rewrite (K i ob Hl), Ed. reflexivity.
     + split; [exact Cm | split; [exact Z | exact K]].
-    + intros ci len1 _ E. rewrite dom_len1_none in E. injection E as <-. intros E'. injection E' as ->.
-      apply (proj1 (Z i ob 0%Z Hl Ed)). reflexivity.
   - cbn [fst]. apply dok_collect. apply dok_set_root. exact D.
   - destruct (get_root st slot) as [i|]; [|exact D].
     destruct (hget (heap st) i) as [ob|]; [|exact D].
@@ -151,23 +145,23 @@ Theorem good_init ct n : Good ct (init ct n).
 Proof. constructor; [apply inv_init | apply collected_init | apply dok_init]. Qed.
 
 Theorem good_step ct st o :
-  consts_nonzero ct -> op_guard o -> Good ct st -> Good ct (fst (step ct st o)).
+  Good ct st -> Good ct (fst (step ct st o)).
 Proof.
-  intros HC G [I C D]. constructor; [apply inv_step; exact I | apply collected_step; assumption | apply dok_step; assumption].
+  intros [I C D]. constructor; [apply inv_step; exact I | apply collected_step; assumption | apply dok_step; assumption].
 Qed.
 
 Theorem good_run ct st ops :
-  consts_nonzero ct -> Forall op_guard ops -> Good ct st -> Good ct (run ct st ops).
+  Good ct st -> Good ct (run ct st ops).
 Proof.
-  intros HC F. revert st. induction F as [|o r Ho F IH]; intros st G; cbn; [exact G|].
+  revert st. induction ops as [|o r IH]; intros st G; cbn; [exact G|].
   apply IH. apply good_step; assumption.
 Qed.
 
 Theorem good_reachable ct n ops :
-  consts_nonzero ct -> Forall op_guard ops -> Good ct (run ct (init ct n) ops).
-Proof. intros HC F. apply good_run; auto. apply good_init. Qed.
+  Good ct (run ct (init ct n) ops).
+Proof. apply good_run. apply good_init. Qed.
 
-(* without the guards: Inv and Collected alone *)
+(* Inv and Collected alone *)
 Theorem inv_collected_run ct st ops : Inv ct st -> Collected st -> Inv ct (run ct st ops) /\ Collected (run ct st ops).
 Proof.
   revert st. induction ops as [|o r IH]; intros st I C; cbn; [auto|].
